@@ -212,5 +212,89 @@ theorem judge1_allDone (cfg : Cfg) (w0 : World) (s : St) (res0 : BRes) :
       simp only [St.msgOf, List.getD_eq_getElem?_getD] at hm
       simp [judge1, see, hm, doneAccepted_exact]
 
+/-- **one call of the model passes the judge** -/
+theorem judge1_model {cfg : Cfg} {w0 : World} (hW : PreOK cfg w0) (s : St) (op : BOp) (hop : OpOK w0 op)
+    (hI : Inv cfg w0 s) (res0 : BRes) : judge1 cfg w0 (see res0 s) op (runOp cfg s op).1 = true := by
+  cases op with
+  | reset c t => exact judge1_reset hW hI c t hop res0
+  | step acts t => exact judge1_step' hW hI acts t hop res0
+  | obs a t => exact judge1_obs hW hI a t res0
+  | rew a => exact judge1_rew cfg w0 s a res0
+  | done a => exact judge1_done cfg w0 s a res0
+  | allDone => exact judge1_allDone cfg w0 s res0
+
+/-- what the trace shows after a call is the state the model is in -/
+theorem runOp_entry (cfg : Cfg) (s : St) (op : BOp) :
+    (runOp cfg s op).1 = see (runOp cfg s op).1.res (runOp cfg s op).2 := by
+  cases op <;> simp only [runOp] <;> (try split) <;> rfl
+
+theorem zipOps_nil_right (ops : List BOp) : zipOps ops [] = [] := by
+  cases ops <;> rfl
+
+/-- **the model's own trace passes the judge**, from any state of the invariant -/
+theorem specFrom_model {cfg : Cfg} {w0 : World} (hW : PreOK cfg w0) :
+    ∀ (ops : List BOp) (s : St) (res0 : BRes), (∀ op ∈ ops, OpOK w0 op) → Inv cfg w0 s →
+      specFrom cfg w0 (see res0 s) (zipOps ops (runOps cfg s ops).1) = true := by
+  intro ops
+  induction ops with
+  | nil => intro s _ _ _; rfl
+  | cons op ops ih =>
+    intro s res0 hops hI
+    have hj := judge1_model hW s op (hops op List.mem_cons_self) hI res0
+    have hI' := runOp_inv hW.cfgok hW.fresh s op (hops op List.mem_cons_self) hI
+    have he := runOp_entry cfg s op
+    have hih := ih (runOp cfg s op).2 (runOp cfg s op).1.res (fun o ho => hops o (List.mem_cons_of_mem _ ho)) hI'
+    rw [← he] at hih
+    simp only [runOps]
+    cases hres : (runOp cfg s op).1.res with
+    | err e => simp [BRes.isErr, zipOps, zipOps_nil_right, specFrom, hj, hres]
+    | unit => simp [BRes.isErr, zipOps, specFrom, hj, hres, hih]
+    | int x => simp [BRes.isErr, zipOps, specFrom, hj, hres, hih]
+    | obs o => simp [BRes.isErr, zipOps, specFrom, hj, hres, hih]
+    | bool b => simp [BRes.isErr, zipOps, specFrom, hj, hres, hih]
+
+/-- `bcPre` is the conjunction of the hypotheses -/
+theorem bcPre_hyps {cfg : Cfg} {w0 : World} {ops : List BOp} (h : bcPre cfg w0 ops = true) :
+    PreOK cfg w0 ∧ ∀ op ∈ ops, OpOK w0 op := by
+  simp only [bcPre, Bool.and_eq_true, List.all_eq_true, allAgents, List.mem_range, decide_eq_true_eq] at h
+  obtain ⟨⟨⟨⟨⟨⟨⟨h1, h2⟩, _⟩, h4⟩, h5⟩, h6⟩, _⟩, h8⟩ := h
+  refine ⟨⟨(cfgOKb_iff w0).mp h1, h2, ?_, h5, h6⟩, ?_⟩
+  · intro b hb
+    have := h4
+    simp only [encPosb, allAgents, List.all_eq_true, List.mem_range, decide_eq_true_eq] at this
+    exact this b hb
+  · intro op hop
+    have := h8 op hop
+    cases op with
+    | reset c t => exact MAG.compOK_of_b this
+    | step acts t =>
+      intro x hx
+      simp only [List.all_eq_true, Bool.and_eq_true, decide_eq_true_eq] at this
+      exact this x hx
+    | obs a t => trivial
+    | rew a => trivial
+    | done a => trivial
+    | allDone => trivial
+
 end BC
+
+/-- **`broadcast_hist`**: under the class precondition `BC.bcPre` (the world as the constructors leave it, the configuration
+hypothesis `BC.cfgHypb`, the history starts with a reset, every reset holds a covered placement state, every step's
+items are for agents of the simulation with moves of the declared spaces — ANY `broadcast` values) the trace the model
+computes satisfies the judge `BC.specBC`, for every configuration, history and tape: every clause of `BC.judge1` (C03
+after reset / step, messages, full delivery `BC.recvAfter`, observations in space with the slot clause, read-and-reset
+rewards, the done getters with the exact tolerance test, "must not raise") on every entry, and a raising call ends the
+trace. -/
+theorem broadcast_hist (cfg : BC.Cfg) (w0 : World) (ops : List BC.BOp) (hpre : BC.bcPre cfg w0 ops = true) :
+    BC.specBC cfg w0 (BC.zipOps ops (BC.runOps cfg (BC.init w0) ops).1) = true := by
+  obtain ⟨hW, hops⟩ := BC.bcPre_hyps hpre
+  exact BC.specFrom_model hW ops (BC.init w0) .unit hops (Or.inr ⟨rfl, rfl⟩)
+
+/-- the same from any initial tape -/
+theorem broadcast_hist_tape (cfg : BC.Cfg) (w0 : World) (t0 : Tape) (ops : List BC.BOp)
+    (hpre : BC.bcPre cfg w0 ops = true) :
+    BC.specBC cfg w0 (BC.zipOps ops (BC.runOps cfg { BC.init w0 with tape := t0 } ops).1) = true := by
+  obtain ⟨hW, hops⟩ := BC.bcPre_hyps hpre
+  exact BC.specFrom_model hW ops { BC.init w0 with tape := t0 } .unit hops (Or.inr ⟨rfl, rfl⟩)
+
 end Abmarl
